@@ -559,7 +559,9 @@ class Union(Structure, metaclass=UnionMetaType):
             raise NotImplementedError("Modifying a dynamic union is not yet supported")
 
         super().__setattr__(attr, value)
-        self._rebuild(attr)
+        if attr in self.__class__.lookup:
+            # Fields of anonymous structures are set through their proxy, which rebuilds the union itself
+            self._rebuild(attr)
 
     def _rebuild(self, attr: str) -> None:
         if (cur_buf := getattr(self, "_buf", None)) is None:
